@@ -64,6 +64,7 @@ type verifContainer struct {
 	milliCPU int64 // CPU request in mCPU
 	memLimit int64
 	state    cache.ContainerState
+	gone     bool // released by a request of the history
 
 	// what the policy told the runtime
 	cpus      string
